@@ -20,7 +20,7 @@ LEVEL = "model_checking"
 MANIFEST = {
     "technique": "TLA+ spec BatchSubmit (clients, re-deliverable requests, handlers as transaction sequences) checked exhaustively by TLC; graph-walk / simulated-behaviour replay on the real aiohttp handlers stepped transaction by transaction over the real SQL (MiniMySQL)",
     "text": "All interleavings of duplicated / re-ordered create, create-fast, update, update-fast, job-group bunch, job bunch and commit requests of two clients (fast and multi-bunch paths) with up to 2 deliveries per request are explored by TLC: at most one batch and one update per token, contiguous disjoint ordered id ranges, every job row and staged count exactly once, client-computed ids equal server ids. The real handlers are driven along those behaviours with exact comparison of the server tables and of the ids each response reports.",
-    "note": "Trusts TLC, MiniMySQL, the transaction-granularity scheduler of the harness (interleavings only at python-level commit boundaries; a handler's read-only look-up and its insert are stepped together); the client side is the specification's model of Batch._submit (the real client's bunching is C19).",
+    "note": "Trusts TLC, MiniMySQL, the transaction-granularity scheduler of the harness (interleavings only at python-level commit boundaries; a handler's read-only look-up and its insert are stepped together); in stage 3 the real aioclient.Batch submits through a faulty in-process transport and TLC evaluates the C09 clauses (SubmitObs.tla) on every recorded end state.",
     "design_ref": "DESIGN.md section 5, C09",
 }
 
@@ -312,6 +312,9 @@ def run(ctx):
                 ctx.violation(f"replay:{lab}:{','.join(sorted(mism['diff']))}", {"config": name, **mism})
                 break
         ctx.cov.setdefault("simulated_replay", []).append({"config": name, "behaviours": nsim})
+    nruns, nreq = run_client_stage(ctx, wd)
+    ntraces += nruns
+    total_steps += nreq
     ctx.cov.update(traces_validated_against_impl=ntraces, evaluations=total_steps, distinct_nontrivial=total_steps,
                    exhaustive=False,
                    rule="behaviours of BatchSubmit (graph walks / tlc -simulate) executed on the real aiohttp handlers one database transaction "
@@ -319,3 +322,163 @@ def run(ctx):
     ctx.assume("interleavings between handlers happen only at python-level transaction boundaries (serialisable transactions)",
                "the client is the specification's model of aioclient.Batch._submit: it re-sends byte-identical requests",
                "MiniMySQL renders the MySQL semantics of the statements faithfully")
+
+
+# ---- stage 3: the real client end to end -------------------------------------------------------------------------------------
+class _Resp:
+    def __init__(self, result):
+        self._r = result
+        self.headers = {}
+
+    async def json(self):
+        return self._r.json
+
+
+class Transport:
+    """In-process transport between the real aioclient and the real handlers, with duplication / re-delivery / lost responses."""
+
+    def __init__(self, w, rng, fault_rate):
+        self.w, self.rng, self.p = w, rng, fault_rate
+        self.log = []
+        self.n_faults = 0
+        self.retry_refused = []
+
+    async def _handle(self, method, path, body):
+        from aiohttp import web
+        try:
+            v = await self.w.http_coro(method, path, body, "u1")
+            r = type("R", (), {})()
+            r.json = json.loads(v.body) if getattr(v, "body", None) else None
+            return r
+        except web.HTTPException as e:
+            raise RuntimeError(f"server answered {e.status} {e.reason} to {method} {path}") from e
+
+    async def request(self, method, path, body):
+        if self.log and self.rng.random() < self.p:
+            m, p_, b = self.rng.choice(self.log)        # an old request arrives again (its response goes nowhere)
+            self.n_faults += 1
+            try:
+                await self._handle(m, p_, b)
+            except RuntimeError:
+                pass
+        self.log.append((method, path, body))
+        r = await self._handle(method, path, body)
+        if self.rng.random() < self.p:                   # response lost: the client's HTTP layer retries the same request
+            self.n_faults += 1
+            try:
+                r = await self._handle(method, path, body)
+            except RuntimeError as e:
+                # e.g. a re-sent job-group bunch is answered 400 'not submitted in order': the real client would give up here;
+                # C09 is about what the re-sent request does to the tables, so the run continues with the first response
+                self.retry_refused.append(str(e))
+        return _Resp(r)
+
+
+def client_run(seed, fault_rate, n_updates_max=3):
+    """One end-to-end run; returns the observation record for SubmitObs."""
+    from vlib.batchenv import BatchWorld
+    from hailtop.batch_client import aioclient
+
+    rng = random.Random(seed)
+    w = BatchWorld(seed=seed)
+    w.webapp()
+    tr = Transport(w, rng, fault_rate)
+    bc = object.__new__(aioclient.BatchClient)
+    bc.billing_project, bc.url, bc._session, bc._headers = "proj", "", None, {}
+
+    async def _post(path, data=None, json=None):
+        body = json
+        if data is not None:
+            raw = getattr(data, "_value", data)
+            body = __import__("json").loads(bytes(raw).decode())
+        return await tr.request("POST", path, body)
+
+    async def _patch(path):
+        return await tr.request("PATCH", path, None)
+
+    bc._post, bc._patch = _post, _patch
+    subs = []
+
+    async def go():
+        b = aioclient.Batch(bc, None, token=f"tok{seed}")
+        for u in range(rng.randint(1, n_updates_max)):
+            ng = rng.choice([0, 0, 1, 2])
+            nj = rng.randint(1, 4) if ng == 0 else rng.randint(0, 3)
+            groups = [b.create_job_group() for _ in range(ng)]
+            jobs = []
+            for k in range(nj):
+                jg = rng.choice(groups) if groups and rng.random() < 0.5 else None
+                parents = [rng.choice(jobs)] if jobs and rng.random() < 0.4 else None
+                kw = dict(resources={"cpu": "0.25", "memory": "standard", "storage": "1Gi"}, parents=parents)
+                jobs.append((jg or b).create_job("img", ["true"], **kw))
+            bunch = rng.choice([1, 2, 1024])
+            await b.submit(max_bunch_size=bunch, disable_progress_bar=True)
+            tok = [r["token"] for r in w.rows("batch_updates")]
+            subs.append({"nj": nj, "ng": ng, "ids": [j.job_id for j in jobs], "gids": [g.job_group_id for g in groups], "fast": bool(b._submission_info.used_fast_path)})
+        return b
+
+    try:
+        res = w.run(go())
+    except RuntimeError as e:
+        if "server answered" not in str(e):
+            raise
+        w.close()
+        # a request of a correct client, sent for the first time, was refused: the submission cannot complete
+        return None, {"error": str(e), "faults": tr.n_faults, "requests": len(tr.log), "fast": [s["fast"] for s in subs], "retry_refused": 0}
+    if res.kind != "ok":
+        w.close()
+        raise RuntimeError(f"client run failed: {res}")
+    ups = sorted(w.rows("batch_updates"), key=lambda r: r["update_id"])
+    # which update belongs to which submission: by the order of creation of distinct tokens
+    toks = []
+    for r in ups:
+        if r["token"] not in toks:
+            toks.append(r["token"])
+    for s, t in zip(subs, toks):
+        s["tok"] = t
+    for s in subs:
+        s.setdefault("tok", "missing")
+    staged = []
+    for r in ups:
+        rows = [x for x in w.rows("job_groups_inst_coll_staging", update_id=r["update_id"]) if x["job_group_id"] == 0]
+        staged.append(sum(x["n_jobs"] for x in rows) if rows or r["n_jobs"] == 0 else -1)
+    obs = {"nbatch": len(w.rows("batches")), "bnj": w.rows("batches")[0]["n_jobs"],
+           "upds": [dict(id=r["update_id"], tok=r["token"], sj=r["start_job_id"], nj=r["n_jobs"], sg=r["start_job_group_id"], ng=r["n_job_groups"],
+                         committed=bool(r["committed"])) for r in ups],
+           "jobs": sorted([r["job_id"], r["update_id"]] for r in w.rows("jobs")),
+           "groups": sorted([r["job_group_id"], r["update_id"]] for r in w.rows("job_groups") if r["job_group_id"] != 0),
+           "staged": staged, "subs": [{k: s[k] for k in ("tok", "nj", "ng", "ids", "gids")} for s in subs]}
+    meta = {"faults": tr.n_faults, "requests": len(tr.log), "fast": [s["fast"] for s in subs], "retry_refused": len(tr.retry_refused)}
+    w.close()
+    return obs, meta
+
+
+def run_client_stage(ctx, wd):
+    n = 60 if ctx.quick else 1500
+    obs, metas = [], []
+    for k in range(n):
+        o, m = client_run(ctx.seed * 100003 + k, fault_rate=0.0 if k % 4 == 0 else 0.35)
+        if o is None:
+            ctx.violation("client:first-request-refused", {"seed": ctx.seed * 100003 + k, **m})
+            continue
+        obs.append(o)
+        metas.append(m)
+    if not obs:
+        return n, 0
+    env = {"SO_OBS": wd / "obs.ndjson", "SO_VERDICT": wd / "obs_verdict.json"}
+    (wd / "obs.ndjson").write_text("\n".join(json.dumps(o) for o in obs) + "\n")
+    tlc.evaluate(wd, "SubmitObsVerdict", env=env)
+    v = json.loads((wd / "obs_verdict.json").read_text())
+    assert v["n"] == len(obs)
+    if not any(m["faults"] for m in metas) or not any(any(m["fast"]) for m in metas) or all(all(m["fast"]) for m in metas):
+        raise RuntimeError("vacuous client stage: no faults injected, or only one submission path exercised")
+    for i, clause in v["bad"]:
+        ctx.violation(f"client:{clause}", {"observation": obs[i - 1], "meta": metas[i - 1], "seed": ctx.seed * 100003 + i - 1})
+    ctx.cov["client_runs"] = {"runs": n, "requests": sum(m["requests"] for m in metas), "faults_injected": sum(m["faults"] for m in metas),
+                              "fast_path_submissions": sum(sum(m["fast"]) for m in metas), "multi_bunch_submissions": sum(len(m["fast"]) - sum(m["fast"]) for m in metas)}
+    nref = sum(m["retry_refused"] for m in metas)
+    if nref:
+        ctx.note(f"{nref} re-sent requests (lost response, then retry) were answered with an error by the server (e.g. a repeated job-group bunch: "
+                 "400 'job group specs were not submitted in order'); the tables were unaffected, which is all C09 states, but a real client would fail there")
+    ctx.sample({"client_observation": obs[1]})
+    return n, sum(m["requests"] for m in metas)
